@@ -16,11 +16,12 @@ func init() {
 			"D2 source untouched / result not aliased (write-set and deep-origin analysis, shared with C14-D1/D3); the exact variant rescales a copy of the statistics (C10-D1). "+
 			"D3 overlap enumeration — the source range is [old.LowerBound(i)·scale, old.LowerBound(i+1)·scale), the target loop starts at new.Index(lower) and continues while new.LowerBound(out) < upper, the weight sent is count·(min(outHi,inHi) − max(outLo,inLo))/(inHi − inLo) and goes to the target store at the loop's own index. "+
 			"D4 no negative weight — on every path reaching the target AddWithCount the overlap size (numerator of the proportion) is established positive or non-negative by a dominating comparison with 0 (or clamped with max(0,·)); count > 0 and inHi − inLo > 0 are axioms (ForEach yields positive weights; LowerBound is increasing and scale > 0). "+
+			"D5 exact statistics are rescaled by the factor — the exact variant's ChangeMapping returns {inner.ChangeMapping(…, scale), a Copy() of the statistics rescaled exactly once by that same scale} and never writes the receiver's statistics; SummaryStatistics.Rescale scales sum and compensation, orders min/max by the sign of the factor and never touches the count (C10-D1/D3 obligations re-evaluated here). "+
 			"NOT DECIDED: conservation of total weight up to rounding, the combined accuracy bound, rank distance.",
 		"one obligation per ChangeMapping path, per overlap term, per path reaching the weighted add",
 		false, runC17)
 	register("C11",
-		"DECIDED (the clause 'never a value from an empty side of the sketch'): on every CFG path on which GetValueAtQuantile answers from the negative store, that store is known non-empty — either by an explicit emptiness/total test, or because the path took `rank < negative.TotalCount()` with a rank that is a non-negative constant or passed a `rank ≥ 0` test on the same path (so TotalCount() > rank ≥ 0). The weighted routing of AddWithCount (weight forwarded unchanged) is C01-D1. "+
+		"DECIDED (the clause 'never a value from an empty side of the sketch'): on every CFG path on which GetValueAtQuantile answers from the negative store, that store is known non-empty — either by an explicit emptiness/total test, or because the path took `rank < negative.TotalCount()` with a rank that is a non-negative constant or passed a `rank ≥ 0` test on the same path (so TotalCount() > rank ≥ 0). D2–D5 (shared obligations re-evaluated for weighted histories): AddWithCount forwards the weight unchanged to the side the value belongs to (C01-D1); the rank is q·(W−1) over the total weight and split between the sides by their totals (C01-D2); every store's KeyAtRank selects the first bin whose cumulative weight strictly exceeds the rank in index order (C01-D3); DDSketch.Reweight scales the zero weight and both stores by the same factor (C16-D1). "+
 			"NOT DECIDED: 'within one unit of weight of q·(W−1)', 'within alpha of an absorbed value', and emptiness of the positive side on the final branch (needs the relational fact rank ≤ count−1).",
 		"one obligation per path answering from the negative store",
 		false, runC11)
@@ -35,6 +36,9 @@ func runC17(c *Ctx) {
 	c17Table(c, a)
 	c17Untouched(c, a)
 	c17Overlap(c, a)
+	// exact variant: the statistics of the result are a copy rescaled once by the same factor; Rescale's field table
+	c10Wrappers(c, a, "C17-D5", "ChangeMapping")
+	c10StatObject(c, a, "C17-D5", "Rescale")
 }
 
 func c17Table(c *Ctx, a *sketchAnchors) {
@@ -407,6 +411,13 @@ func runC11(c *Ctx) {
 		c.R.undecided("C11", "anchors", "", "", "sketch anchors resolve", err.Error())
 		return
 	}
+	// weighted histories: the weight is forwarded unchanged to the side the value belongs to (D2), the rank is
+	// q·(W−1) over the total weight and is split between the sides by their totals (D3), the stores select the
+	// first bin whose cumulative weight exceeds the rank (D4), and reweighting scales all three parts (D5).
+	c01Routing(c, a, "C11-D2")
+	c01Split(c, a, "C11-D3")
+	c01KeyAtRank(c, a, "C11-D4")
+	c16Sketch(c, a, "C11-D5")
 	f := c.P.DeclaredMethod(a.DDSketch, "GetValueAtQuantile")
 	if !c.mustFunc(rule, f, "(*DDSketch).GetValueAtQuantile") {
 		return
